@@ -6,6 +6,7 @@
    insertion sort of Gcs/Sort.v (proved to be one in Gcs/GcsSortProofs.v). *)
 From BU Require Import Lib.Bytes Gcs.SipHash Gcs.Sort Gcs.Gcs Gcs.GcsProofs Gcs.GcsBitsProofs
   Gcs.GcsMatchProofs Gcs.GcsTheorems Gcs.GcsCostProofs Gcs.GcsSortProofs Gcs.BStream Gcs.BStreamProofs Gcs.SipHashVectors.
+From BU Require Import Gen.Kernels Tie.KernelsTie.
 From Coq Require Import Sorting.Sorted Sorting.Permutation.
 
 (* reading N values from the encoding of an ascending list returns its deltas (and leaves the rest) *)
@@ -25,6 +26,13 @@ Theorem C13_pad_repeats_last : forall P last, last < two64 ->
   forall fuel k, (k < fuel)%nat -> exists j, decode_all fuel P (repeat false k) last = Ok (repeat last j).
 Proof. exact decode_all_pad. Qed.
 Print Assumptions C13_pad_repeats_last.
+
+(* BuildGCSFilter succeeds exactly on the admissible parameters, so the theorems below cover every
+   key, every M, every P <= 32 and every data set of fewer than 2^32 items *)
+Theorem C13_build_total : forall hash sort P M key data,
+  P <= 32 -> N.of_nat (length data) < two32 -> exists f, build hash sort P M key data = Ok f.
+Proof. exact build_total. Qed.
+Print Assumptions C13_build_total.
 
 (* a member is reported by the single-item query, by both strategies and by their dispatcher *)
 Theorem C13_member_matches : forall hash sort, hash_ok hash -> sort_ok sort ->
@@ -122,6 +130,20 @@ Theorem C13_bstream_decode : forall P data last fuel, P <= 64 -> Bytes data ->
   bs_decode_all fuel P (new_reader data) last = decode_all fuel P (bits_of_bytes data) last.
 Proof. exact stream_readers_agree. Qed.
 Print Assumptions C13_bstream_decode.
+
+(* the model's fast_reduction IS the source: Gen/Kernels.v is regenerated from the Go AST of
+   fastReduction on every run (harness/cmd/gotrans) and is the same function as the hand-written model
+   for ALL arguments; a structural change of the Go function breaks this obligation at make time *)
+Theorem C13_fast_reduction_is_translated_source : forall v nHi nLo,
+  Kernels.fastReduction v nHi nLo = Gcs.fast_reduction v nHi nLo.
+Proof. exact fastReduction_tie. Qed.
+Print Assumptions C13_fast_reduction_is_translated_source.
+
+Theorem C13_translated_fast_reduction_spec : forall v nHi nLo,
+  v < 2 ^ 64 -> nHi < 2 ^ 32 -> nLo < 2 ^ 32 ->
+  Kernels.fastReduction v nHi nLo = (v * (nHi * 2 ^ 32 + nLo)) / 2 ^ 64.
+Proof. exact fastReduction_spec. Qed.
+Print Assumptions C13_translated_fast_reduction_spec.
 
 (* the hypotheses are satisfiable: SipHash-2-4 (cut to 64 bits) and insertion sort *)
 Definition sip64 (k d : list N) : N := w64 (siphash k d).
